@@ -115,13 +115,13 @@ PROPS = {
         "assumptions": [],
     },
     "C02": {
-        "batches": lambda tier: conn_batches([("c02", 400), ("mixed", 150), ("long", 3)], [("c02", 6000), ("mixed", 2000), ("long", 9)])(tier)
+        "batches": lambda tier: conn_batches([("c02", 400), ("sweep", 87), ("mixed", 150), ("long", 3)], [("c02", 6000), ("sweep", 87), ("mixed", 2000), ("long", 9)])(tier)
                    + ctl_batches("vanishdata", 60, 1500, per=60)(tier) + ctl_batches("midline", 60, 1500, per=60)(tier),
         "replay_bin": "pristine", "need": ["heads", "seq", "addr", "nohang", "results"], "agr_need": ["heads", "seq"],
         "rule": "grammar-directed request heads (nine methods + extension tokens incl. lower-case, visible-ASCII targets, 1.0/1.1, 0..64 headers with duplicates, "
-                "empty values, colons and inner whitespace, lines > 1 KiB, heads > 64 KiB, random OWS) sent over loopback TCP and UNIX sockets; delivered "
+                "empty values, colons and inner whitespace, lines > 1 KiB, heads > 64 KiB, random OWS; sweep: request lines and header lines of EVERY length 2..325 and around each power of two up to 16 KiB) sent over loopback TCP and UNIX sockets; delivered "
                 "method/url/version/headers/body_length/remote_addr compared with the generator's abstract request and with the model",
-        "required_tags": ["unix:1", "unix:0", "n:3", "fam:vanishdata", "fam:long"],
+        "required_tags": ["unix:1", "unix:0", "n:3", "fam:vanishdata", "fam:long", "fam:sweep"],
         "partial": ["theorem: head round trip for every well-formed head (Props/C02)", "observed only: remote_addr equals the client's socket address on TCP and is absent on UNIX sockets"],
         "assumptions": CONN_ASSUMPTIONS,
     },
@@ -153,7 +153,7 @@ PROPS = {
         "batches": lambda tier: conn_batches([("c12", 500), ("c10", 100), ("long", 3)], [("c12", 8000), ("mixed", 2000), ("c10", 600), ("long", 9)])(tier) + ctl_batches("idle", 200, 4000, per=100)(tier),
         "replay_bin": "pristine", "need": ["seq", "heads", "wire", "eof", "nohang"], "agr_need": ["seq", "heads", "wire", "eof"],
         "rule": "version {1.0,1.1} x Connection header {absent, close, keep-alive, upgrade, other tokens, lists (also keep-alive next to close / upgrade), letter case, substrings} "
-                "at every pipeline position, arbitrary bytes after the last request, client half-closing or keeping the connection open; idle: the same conversations on the "
+                "at every pipeline position, arbitrary bytes after the last request, client half-closing or keeping the connection open (also in the middle of the last request's body); idle: the same conversations on the "
                 "controlled build with 1 s .. 1 h of virtual silence between or inside requests and handlers that take 6..12 s",
         "required_tags": ["mode:open", "mode:halfclose", "end:waiting", "end:closed", "fam:idle", "stall:1", "fam:long", "class:e417"],
         "partial": [], "assumptions": CONN_ASSUMPTIONS,
@@ -170,7 +170,7 @@ PROPS = {
         "batches": lambda tier: conn_batches([("c18", 500), ("hold", 100), ("c10", 100)], [("c18", 6000), ("hold", 1000), ("c10", 600)])(tier) + ctl_batches("expmt", 100, 3000, per=100)(tier),
         "replay_bin": "pristine", "need": ["wire", "bodies", "seq", "nohang", "hold"], "agr_need": ["wire", "bodies", "seq", "hold"],
         "rule": "Expect: 100-continue present/absent (letter case) x body length {0,1,10,1024,1025,3000} x Content-Length/chunked x programs {answer without reading, "
-                "as_reader once / several times, partial read, over-read} with a client that withholds the body until the server has sent something",
+                "as_reader once / several times, partial read, over-read} with a client that withholds the body until the server has sent something; a following request without the header whose body the application reads",
         "required_tags": ["st:100", "hold:1", "hold:0", "lateask:1", "fam:expmt"],
         "partial": [], "assumptions": CONN_ASSUMPTIONS,
     },
@@ -219,7 +219,7 @@ PROPS = {
             {"bin": "pristine", "args": ["srv", "reclaim", 5], "name": "pristine thread reclamation, burst of 5"},
             {"bin": "pristine", "args": ["srv", "reclaim", 40], "name": "pristine thread reclamation, burst of 40"}],
         "replay_bin": "controlled", "oracle_col": "C20", "agree_col": "aC20",
-        "rule": "same pool scenarios continued: gates opened, virtual time advanced past the idle period, live worker threads counted; then the pool is dropped and time advanced again",
+        "rule": "same pool scenarios continued: gates opened, virtual time advanced past the idle period, live worker threads counted; then the pool is dropped and time advanced again; backlog: connections that open with a refused (505) request; drop: UNIX socket paths that are not valid UTF-8",
         "required_tags": ["timeoutwake:1", "burstlive:gt4", "burstlive:le4", "trickle:1", "srv:drop-tcp", "srv:drop-unix", "srv:drop-unix-dead", "srv:drop-queued", "srv:reclaim:40", "srvpool:1", "srv:backlog:gt8", "srv:backlog:le8"],
         "partial": ["theorem: at most MIN_THREADS untimed waiters / idle pool at baseline / retirement strands no task / accept loop stops after at most one more accept / handed-out requests stay answerable",
                     "observed only: connect() refused after drop, UNIX socket path removed, real thread counts (/proc/self/task)"],
@@ -250,11 +250,11 @@ PROPS = {
         "partial": [], "assumptions": CTL_ASSUMPTIONS + CONN_ASSUMPTIONS,
     },
     "C11": {
-        "batches": lambda tier: ctl_batches("ahead", 600, 20000, per=200)(tier) + conn_batches([("bigunread", 3), ("long", 3)], [("bigunread", 12), ("long", 9)])(tier),
+        "batches": lambda tier: ctl_batches("ahead", 600, 20000, per=200)(tier) + conn_batches([("bigunread", 3), ("long", 3), ("c09", 120)], [("bigunread", 12), ("long", 9), ("c09", 2000)])(tier),
         "replay_bin": "controlled", "need": ["ahead", "nohang", "noabort"], "need_intent": False, "agr_need": ["ahead", "seq", "wire"],
         "rule": "pipelines of 2..8 requests with bodies {none, 1, 2..1023, 1024} and optionally a first request with a 1025..9000-byte or chunked body that the application reads "
                 "to EOF on arrival; the application collects ALL requests before answering any (a deadlock — detected by the scheduler — iff read-ahead fails); "
-                "count of requests obtained while none is answered compared with the read-ahead model",
+                "count of requests obtained while none is answered compared with the read-ahead model; plus the C09 body family (all framings incl. Content-Length next to chunked, every consumption prefix) for the successors' delivery",
         "required_tags": ["streamed_first:0", "streamed_first:1", "park:1", "park:0", "fam:bigunread", "fam:long"],
         "partial": [], "assumptions": CTL_ASSUMPTIONS,
     },
@@ -272,7 +272,7 @@ PROPS = {
         "replay_bin": "c14", "need": ["nopanic", "noabort", "alloc", "nohang"], "need_intent": False, "agr_need": ["heads", "bodies", "seq", "wire", "eof"],
         "rule": "adversarial inputs against the pristine crate, each case in a child process with a process-wide panic hook and a counting global allocator: Content-Length 0 .. "
                 "beyond usize::MAX (body absent / short), chunk sizes up to and beyond 16 hex digits, 1000..20000 headers, 0.1..3 MB lines, NUL/control/non-ASCII garbage, "
-                "truncation everywhere, TE lists with up to 200 NaN/inf/exponent q-values, corner headers, 1000-request pipelines; x handlers {no read, partial, full read} x {respond, drop}; "
+                "truncation everywhere, request lines with empty / missing / surplus fields, TE lists with up to 200 NaN/inf/exponent q-values, corner headers, 1000-request pipelines; x handlers {no read, partial, full read} x {respond, drop}; "
                 "predicate: no abnormal exit, no panic anywhere in the process, largest single allocation <= 256 KiB + 16 x bytes sent + 8 x bytes received",
         "required_tags": ["tag:cl", "tag:chunksize", "tag:te", "tag:line", "tag:headers", "tag:garbage", "tag:truncated", "tag:rst", "tag:rstbody", "tag:rstpipe", "tag:headid"],
         "partial": ["theorem: sizes the modelled logic asks for are bounded (small-body buffer <= 1024, discard reads <= 4 KiB, accepted lengths representable), TE comparison is a strict weak order, the model is total",
